@@ -69,3 +69,38 @@ func VerifC11Parse() {
 	vsymCover("parser-error")
 	vsymAssert(cmd.Tag == p.LastParsedTag(), "BAD response must carry the tag of the offending line")
 }
+
+// VerifC11Nesting: the call depth of the parser must not grow with the nesting of the input (a stack overflow is
+// not recoverable and kills the whole server).  Under the engine k nesting levels are fed and the interpreted call
+// depth is compared with the depth for k/2 levels; natively the witness is amplified (8 million levels).
+func VerifC11Nesting() {
+	k := vsymParam("k")
+	unit := []string{"(", "NOT ", "OR ALL "}[vsymParam("unit")]
+	run := func(levels int) int {
+		var buf []byte
+		buf = append(buf, "a SEARCH "...)
+		for i := 0; i < levels; i++ {
+			buf = append(buf, unit...)
+		}
+		buf = append(buf, "ALL"...)
+		if unit == "(" {
+			for i := 0; i < levels; i++ {
+				buf = append(buf, ')')
+			}
+		}
+		buf = append(buf, '\r', '\n')
+		r := &verifReader{buf: buf}
+		p := NewParser(rfcparser.NewScannerWithReader(r))
+		d0 := vsymMaxDepth()
+		_, _ = p.Parse()
+		return vsymMaxDepth() - d0
+	}
+	if !vsymIsSym() {
+		run(vsymParam("amplify"))
+		return
+	}
+	small := run(k)
+	big := run(2 * k)
+	vsymCover("nesting-run")
+	vsymAssert(big <= small+8, "parser call depth does not grow with the nesting depth of the input (beyond the server's nesting limit)")
+}
